@@ -57,6 +57,21 @@ class Obligation:
 class Outcome:
     def __init__(self, kind, value, pc, env=None):
         self.kind, self.value, self.pc, self.env = kind, value, pc, env   # kind: 'return' | 'raise'
+        self.final = []          # (dict, contents at the end of the path) for every journalled object dictionary
+
+    def __enter__(self):
+        """re-installs the end-of-path state of the objects the path mutated (post-conditions read it)"""
+        self._saved = [(d, dict(d)) for d, _ in self.final]
+        for d, snap in self.final:
+            d.clear()
+            d.update(snap)
+        return self
+
+    def __exit__(self, *exc):
+        for d, snap in self._saved:
+            d.clear()
+            d.update(snap)
+        return False
 
 
 class LoopSpec:
@@ -127,6 +142,7 @@ class Exec(ExprMixin, CallMixin):
                 if not has_quant(p):
                     self.solver.add(p)
             self.stats["paths"] += 1
+            self.journal = []          # mutations of objects that outlive the path (inputs) are undone at its end
             try:
                 try:
                     v = thunk(self)
@@ -137,13 +153,34 @@ class Exec(ExprMixin, CallMixin):
                     outcomes.append(Outcome("raise", e, list(self.pc)))
                 except PathEnd:
                     pass
+                else:
+                    pass
+                if outcomes and outcomes[-1].pc == self.pc and not outcomes[-1].final:
+                    seen_d = {}
+                    for d, k, had, old in self.journal:
+                        seen_d.setdefault(id(d), d)
+                    outcomes[-1].final = [(d, dict(d)) for d in seen_d.values()]
                 obligations.extend(self.obls)
             except Infeasible:
                 self.stats["pruned"] += 1
+            finally:
+                for d, k, had, old in reversed(self.journal):
+                    if had:
+                        d[k] = old
+                    else:
+                        d.pop(k, None)
+                self.journal = []
             todo.extend(self.pending)
             if self.stats["paths"] > 20000:
                 raise OutsideSubset("path explosion (>20000 paths)")
         return outcomes, obligations
+
+    def set_field(self, d, k, v):
+        """journalled write into an object's field / cache dictionary"""
+        j = getattr(self, "journal", None)
+        if j is not None:
+            j.append((d, k, k in d, d.get(k)))
+        d[k] = v
 
     def assume(self, cond):
         cond = B(cond)
@@ -444,7 +481,7 @@ class Exec(ExprMixin, CallMixin):
             if isinstance(owner, Obj) and isinstance(owner.fields.get(e.func.value.attr), AList):
                 recv = owner.fields[e.func.value.attr]
                 arg = self.ev(e.args[0], fr)
-                owner.fields[e.func.value.attr] = self.alist_append(recv, arg) if e.func.attr == "append" else self.alist_extend(recv, arg)
+                self.set_field(owner.fields, e.func.value.attr, self.alist_append(recv, arg) if e.func.attr == "append" else self.alist_extend(recv, arg))
                 return
         self.ev(e, fr)
 
@@ -509,7 +546,7 @@ class Exec(ExprMixin, CallMixin):
             if isinstance(o, Obj):
                 if o.cls.dataclass and o.cls.dataclass.get("frozen"):
                     raise RaiseEx("FrozenInstanceError")
-                o.fields[t.attr] = v
+                self.set_field(o.fields, t.attr, v)
             else:
                 raise OutsideSubset("attribute store")
         else:
@@ -764,7 +801,7 @@ class Exec(ExprMixin, CallMixin):
     def _set_path(self, fr, var, val):
         if "." in var:
             o, f = var.split(".", 1)
-            fr.env[o].fields[f] = val
+            self.set_field(fr.env[o].fields, f, val)
         else:
             fr.env[var] = val
 
